@@ -211,9 +211,12 @@ def run_property(pid, tier, seed):
                 known_hits.append(kk)
                 continue
             payload = dict(v)
-            payload.update({'property': pid, 'kind_of_replay': 'bounded run of the real code under runtime contracts'})
+            has_input = v.get('input') is not None
+            payload.update({'property': pid, 'kind_of_replay': 'bounded run of the real code under runtime contracts'
+                            if has_input else 'none: static obligation over the real source; no failing input exists '
+                            'for it (the replay file names the failed obligation)'})
             p = core.write_replay(pid, v.get('clause', 'floor'), payload)
-            violations.append({'clause': v.get('clause', 'floor'), 'replay': p, 'found': True})
+            violations.append({'clause': v.get('clause', 'floor'), 'replay': p, 'found': has_input})
     # a proof-level refutation without its own input is superseded by a concrete input if the floor found one
     if any(v['found'] for v in violations):
         for v in violations:
@@ -249,6 +252,8 @@ def run_property(pid, tier, seed):
 
     # ---------------- evidence
     level = getattr(prop, 'LEVEL', 'other')
+    if not targets:
+        level = 'exploration'
     cov = {
         'obligations': n_obl, 'discharged': n_dis,
         'checker_cmd': './check %s --tier %s' % (pid, tier),
